@@ -231,13 +231,21 @@ int main(void)
 #else
     int d1 = IN_RANGE(0, DMAX), d2 = IN_RANGE(0, DMAX);
 #endif
+#ifdef E1
+    int e1 = E1, e2 = E2;              /* submitting streams enumerated by the driver (spq) */
+#else
     int e1 = IN_RANGE(0, NES - 1), e2 = IN_RANGE(0, NES - 1);
+#endif
     int s1 = IN_RANGE(0, N1);
 
     do_schedule(e1, 0, N1, d1);
     for (int i = 0; i < N1; i++) {
         if (i >= s1) continue;
+#ifdef SEL
+        int e = SEL;                   /* stream of the intermediate selects enumerated by the driver (spq) */
+#else
         int e = IN_RANGE(0, NES - 1);
+#endif
         int k = do_select(e);
 #ifdef RESCHED
         if (i == 0 && k >= 0) {           /* what __parsec_schedule does with a task it cannot run now */
@@ -268,10 +276,15 @@ int main(void)
     { int32_t d = 0; VASSERTM(SELECT(&ESB, &d) == NULL, "a stream of another VP never sees the tasks"); }
 #endif
 
+#if defined(E1) && (E1 == E2)
+#define TWO_SUBMITTERS 1          /* enumerated: same submitting stream twice */
+#else
+#define TWO_SUBMITTERS (e1 != e2)
+#endif
 #if defined(WIT_FAR)
-    if (far_seen > 0 && s1 >= 1 && e1 != e2) VWITNESS("a task came back with distance>0 (neighbour/system queue), two submitting streams");
+    if (far_seen > 0 && s1 >= 1 && TWO_SUBMITTERS) VWITNESS("a task came back with distance>0 (neighbour/system queue), two submitting streams");
 #elif NES >= 2
-    if (cross_stream_seen > 0 && s1 >= 1 && s1 < N1 && e1 != e2) VWITNESS("task returned on another stream than the one it was scheduled on; interleaved selects");
+    if (cross_stream_seen > 0 && s1 >= 1 && s1 < N1 && TWO_SUBMITTERS) VWITNESS("task returned on another stream than the one it was scheduled on; interleaved selects");
 #else
     if (s1 >= 1 && s1 < N1) VWITNESS("interleaved selects");
 #endif
